@@ -209,6 +209,10 @@ def confirm(c, outs):
         if got != exp[1] or r['ok']['unit']: return True, f'{prof}: got {got} {r["ok"]["unit_text"]}, exact value is {exp[1]}'
     return False, 'real build agrees with the exact evaluator'
 
+def validate(tier, seed, report):
+    from props import exprlib
+    return exprlib.validate_pipeline(seed, 60 if tier == 'quick' else 300)
+
 def known_match(k, c): return True
 
 if __name__ == '__main__':
